@@ -5,6 +5,7 @@ package main
 
 import (
 	"fmt"
+	"go/token"
 	"go/types"
 	"sort"
 	"strings"
@@ -293,6 +294,118 @@ func (eng *Engine) runScans(prop string) []*Oblig {
 							}
 							if ld, ok := mu.Map.(*ssa.UnOp); ok && ld.X == cell {
 								bad = append(bad, eng.site(a)+" updates the map after it was published by StorePointer")
+							}
+						}
+					}
+				}
+			}
+		case "slice-field-frozen":
+			// slice-field-frozen T.f allowed...: outside the allowed functions no code writes an element of the slice held in
+			// field f of T, appends to it in place, or hands it to code that may (any callee that is not known read-only)
+			if len(sc.Args) < 1 || !strings.Contains(sc.Args[0], ".") {
+				bad = append(bad, "malformed scan")
+				break
+			}
+			dot := strings.LastIndex(sc.Args[0], ".")
+			tname, fname := sc.Args[0][:dot], sc.Args[0][dot+1:]
+			allowed := sc.Args[1:]
+			readOnly := func(name string) bool {
+				for _, p := range []string{"strings.Join", "strings.", "fmt.", "len", "cap", "reflect.DeepEqual"} {
+					if name == p || (strings.HasSuffix(p, ".") && strings.HasPrefix(name, p)) {
+						return true
+					}
+				}
+				return false
+			}
+			for _, fn := range fns {
+				// values derived from a load of the field
+				derived := map[ssa.Value]bool{}
+				isField := func(v ssa.Value) bool {
+					switch x := v.(type) {
+					case *ssa.UnOp:
+						if fa, ok := x.X.(*ssa.FieldAddr); ok && x.Op == token.MUL {
+							st := fa.X.Type().Underlying().(*types.Pointer).Elem()
+							_, n := typeOwner(st)
+							return n == tname && st.Underlying().(*types.Struct).Field(fa.Field).Name() == fname
+						}
+					case *ssa.Field:
+						_, n := typeOwner(x.X.Type())
+						if stt, ok := x.X.Type().Underlying().(*types.Struct); ok {
+							return n == tname && stt.Field(x.Field).Name() == fname
+						}
+					}
+					return false
+				}
+				changed := true
+				for changed {
+					changed = false
+					for _, b := range fn.Blocks {
+						for _, in := range b.Instrs {
+							v, ok := in.(ssa.Value)
+							if !ok || derived[v] {
+								continue
+							}
+							d := isField(v)
+							switch x := in.(type) {
+							case *ssa.Slice:
+								d = d || derived[x.X]
+							case *ssa.Phi:
+								for _, e := range x.Edges {
+									d = d || derived[e]
+								}
+							case *ssa.ChangeType:
+								d = d || derived[x.X]
+							case *ssa.MakeInterface:
+								d = d || derived[x.X]
+							}
+							if d {
+								derived[v] = true
+								changed = true
+							}
+						}
+					}
+				}
+				if len(derived) == 0 {
+					continue
+				}
+				covered++
+				if eng.fnAllowed(fn, allowed) {
+					continue
+				}
+				for _, b := range fn.Blocks {
+					for _, in := range b.Instrs {
+						switch x := in.(type) {
+						case *ssa.Store:
+							if ia, ok := x.Addr.(*ssa.IndexAddr); ok && derived[ia.X] {
+								bad = append(bad, eng.site(in)+" writes an element of "+sc.Args[0])
+							}
+						case ssa.CallInstruction:
+							cc := x.Common()
+							name := ""
+							if bi, ok := cc.Value.(*ssa.Builtin); ok {
+								name = bi.Name()
+							} else if f := cc.StaticCallee(); f != nil {
+								name = fullName(f)
+								if eng.inRepo(f) {
+									if fc := eng.contractFor(f); fc != nil && (fc.NoMod || fc.Pure) {
+										continue // verified read-only
+									}
+								}
+							}
+							for ai, a := range cc.Args {
+								if !derived[a] {
+									continue
+								}
+								if (name == "append" || name == "copy") && ai != 0 {
+									continue // source operand
+								}
+								if readOnly(name) {
+									continue
+								}
+								if name == "" {
+									name = "a dynamic call"
+								}
+								bad = append(bad, eng.site(in)+" passes "+sc.Args[0]+" to "+name)
 							}
 						}
 					}
